@@ -38,9 +38,9 @@ func foreignLayout(r *Run, real bool) {
 	S := []int{4, 8, 16, 64, 100}[t.Draw(5, "S")]
 	var files []ref.Protected
 	n := 0
-	stems := []string{"f%d.dat", "sub/f%d", "sub/deep/f%d.bin", "with space %d", "d%d/x"}
+	stems := []string{"f%d.dat", "sub/f%d", "sub/deep/f%d.bin", "with space %d", "d%d/x", "rel..%d/data.bin", "wait...%d.txt", "a..b%d", "win\\f%d"}
 	for i := 0; i < nf; i++ {
-		name := fmt.Sprintf(stems[t.Pick([]int{4, 1, 1, 1, 1}, "stem")], i)
+		name := fmt.Sprintf(stems[t.Pick([]int{4, 1, 1, 1, 1, 1, 1, 1, 1}, "stem")], i)
 		if strings.Contains(name, "/") {
 			r.Probe("subdir-data-name")
 		}
